@@ -38,6 +38,10 @@ class CUSUMModel:
         1e-10 times the level): flagged degenerate unless it consists of identical small integers (exact in any order)."""
         m, sd = _mean(xs), _pstd(xs)
         scale = max(abs(x) for x in xs)  # relative to the data's own unit: streams recorded in units of 1e-9 are ordinary streams
+        if sd > 0 and scale > 0:
+            # a level far above the spread: any double-precision two-pass estimate of the deviation carries a relative error of about
+            # eps * level / spread, which every later standardised value inherits - the near-tie band follows it
+            self.cmp.tau = max(self.cmp.tau, 256 * 2.3e-16 * scale / sd)
         if sd <= 1e-9 * scale or scale == 0:
             exact = all(x == xs[0] for x in xs) and float(xs[0]).is_integer() and abs(xs[0]) < 2 ** 20
             if not exact:
